@@ -211,6 +211,11 @@ class Sandbox:
             self._stop_mocking(context)
             self._capture_exception(system_exit, sys.exc_info(),
                                     code, filename)
+        except BaseException:
+            # KeyboardInterrupt, GeneratorExit, ... are not ours to report, but the
+            # process-wide patches must not outlive the execution
+            self._stop_mocking(context)
+            raise
         else:
             self._stop_mocking(context)
 
